@@ -97,6 +97,10 @@ func Signature() (sig string, detail string) {
 	}
 	ledgerWaiters := Match(gs, "sync.RWMutex", "accountant.(*AccountingBook)")
 	chanSenders := Match(gs, "chan send", "accountant.(*AccountingBook)")
+	bufferWaiters := Match(gs, "sync.Mutex", "accountant.(*buffer)")
+	if len(bufferWaiters) == 0 {
+		bufferWaiters = Match(gs, "semacquire", "accountant.(*buffer)")
+	}
 	parts := []string{}
 	if len(walkers) > 0 {
 		parts = append(parts, "walker-parked-in-chan-send")
@@ -113,8 +117,11 @@ func Signature() (sig string, detail string) {
 	if len(chanSenders) > 0 {
 		parts = append(parts, "ledger-goroutine-parked-in-chan-send")
 	}
+	if len(bufferWaiters) > 0 {
+		parts = append(parts, "orphan-buffer-lock-waiters")
+	}
 	var d []string
-	for _, set := range [][]G{walkers, writers, readers, chanSenders} {
+	for _, set := range [][]G{walkers, writers, readers, chanSenders, bufferWaiters} {
 		for i, g := range set {
 			if i < 2 {
 				t := g.Text
